@@ -58,6 +58,7 @@ struct RuntimeFunctionIndices {
     closure_call: u32,
     closure_state_push: u32,
     closure_state_pop: u32,
+    closure_state_init: u32,
     state_push: u32,
     state_pop: u32,
     state_get: u32,
@@ -473,6 +474,7 @@ impl WasmGenerator {
         self.rt.box_clone = self.add_import("box_clone", type_idx);
         self.rt.box_release = self.add_import("box_release", type_idx);
         self.rt.closure_close = self.add_import("closure_close", type_idx);
+        self.rt.closure_state_init = self.add_import("closure_state_init", type_idx);
         type_idx += 1;
 
         // Type 2: (i32, i64, i32) -> ()  for heap_load, box_load
@@ -2861,6 +2863,15 @@ impl WasmGenerator {
                     }));
                 }
                 self.indirect_upvalues.insert(mir_fn_idx, is_indirect);
+
+                // A new closure instance starts with fresh state. The host keys closure state
+                // by this address, and the address is handed out again once the bump pointer
+                // has been rewound (after every dsp tick), so say that a new closure lives here.
+                if self.get_mir_fn_state_size(mir_fn_idx) > 0 {
+                    func.instruction(&W::LocalGet(self.alloc_base_local));
+                    func.instruction(&W::I64ExtendI32U);
+                    func.instruction(&W::Call(self.rt.closure_state_init));
+                }
 
                 // Push closure address as the result (i64)
                 func.instruction(&W::LocalGet(self.alloc_base_local));
